@@ -20,6 +20,8 @@ import (
 	"math/rand/v2"
 	"net/netip"
 	"os"
+	"regexp"
+	"strconv"
 	"strings"
 	"testing"
 
@@ -98,11 +100,11 @@ func TestVerifC04(t *testing.T) {
 
 type c04Case struct {
 	quirk string // the rarely used value class actually present in the message, if any
-	rec  *vlib.Rec
-	idx  int
-	o    *vgenOptSet
-	kind string
-	b    []byte
+	rec   *vlib.Rec
+	idx   int
+	o     *vgenOptSet
+	kind  string
+	b     []byte
 }
 
 func (c *c04Case) wit(extra map[string]any) map[string]any {
@@ -131,8 +133,10 @@ func (c *c04Case) viol(key, what string, extra map[string]any) {
 	if c.quirk != "" && !strings.HasPrefix(key, "c04:len:PathAttribute") {
 		for _, m := range c04QuirkMarks[c.quirk] {
 			if strings.Contains(key, m) {
-				key += ":with-" + c.quirk
-				what += " [the element holds the rarely used value class " + c.quirk + "]"
+				// one key per (oracle, value class): the detail stays in the description
+				parts := strings.SplitN(key, ":", 3)
+				what += " [" + key + "; the element holds the rarely used value class " + c.quirk + "]"
+				key = parts[0] + ":" + parts[1] + ":with-" + c.quirk
 				break
 			}
 		}
@@ -239,7 +243,7 @@ func c04GeneratedCase(rec *vlib.Rec, r *rand.Rand, idx int) {
 	} else {
 		d := vgenDiff(msg, m2)
 		if d != nil {
-			c.viol("c04:roundtrip:"+d.TypePath(), fmt.Sprintf("Parse(Serialize(m)) differs from m at %s: %s", d.Path, d.What), map[string]any{"types": meta.TypeSet(), "tags": meta.Tags})
+			c.viol("c04:roundtrip:"+d.TypePath()+c04ListElem(msg, d), fmt.Sprintf("Parse(Serialize(m)) differs from m at %s: %s", d.Path, d.What), map[string]any{"types": meta.TypeSet(), "tags": meta.Tags})
 		}
 		var b2 []byte
 		var err2 error
@@ -264,6 +268,32 @@ func c04GeneratedCase(rec *vlib.Rec, r *rand.Rand, idx int) {
 	if idx%9973 == 0 {
 		rec.Sample(map[string]any{"case": idx, "kind": meta.Kind, "types": meta.TypeSet(), "options": o.Key, "octets": len(b)})
 	}
+}
+
+var c04AttrIdxRe = regexp.MustCompile(`PathAttributes\[(\d+)\]\.\(PathAttributeMp(Reach|Unreach)NLRI\)\.Value:len$`)
+
+// c04ListElem: when the number of NLRI of an MP attribute differs, name the NLRI type.
+func c04ListElem(m *BGPMessage, d *vgenDiffResult) string {
+	mm := c04AttrIdxRe.FindStringSubmatch(d.Path)
+	u, ok := m.Body.(*BGPUpdate)
+	if mm == nil || !ok {
+		return ""
+	}
+	i, _ := strconv.Atoi(mm[1])
+	if i >= len(u.PathAttributes) {
+		return ""
+	}
+	var list []PathNLRI
+	switch x := u.PathAttributes[i].(type) {
+	case *PathAttributeMpReachNLRI:
+		list = x.Value
+	case *PathAttributeMpUnreachNLRI:
+		list = x.Value
+	}
+	if len(list) == 0 {
+		return ""
+	}
+	return ":" + c04TypeName(list[0].NLRI)
 }
 
 // c04ParseCulprit names the attribute (and family) of a generated message whose own octets its
@@ -327,13 +357,13 @@ func c04Culprit(m *BGPMessage, o *vgenOptSet) (s string) {
 		case *PathAttributeMpReachNLRI:
 			for _, n := range x.Value {
 				if _, err := n.NLRI.Serialize(o.Ser...); err != nil {
-					return s + "/" + c04ElemName(n.NLRI)
+					return "MP/" + c04ElemName(n.NLRI)
 				}
 			}
 		case *PathAttributeMpUnreachNLRI:
 			for _, n := range x.Value {
 				if _, err := n.NLRI.Serialize(o.Ser...); err != nil {
-					return s + "/" + c04ElemName(n.NLRI)
+					return "MP/" + c04ElemName(n.NLRI)
 				}
 			}
 		}
@@ -909,7 +939,7 @@ func c04AcceptedCase(rec *vlib.Rec, r *rand.Rand, idx int) {
 			rec.Count("accepted_half_too_long", 1)
 			return
 		}
-		c.viol("c04:accepted:serialize-error:"+c04Norm(err.Error()), fmt.Sprintf("the parser accepts these octets but the value it returns cannot be serialised: %v", err), nil)
+		c.viol("c04:accepted:serialize-error:"+c04Culprit(m1, o)+":"+c04Norm(err.Error()), fmt.Sprintf("the parser accepts these octets but the value it returns cannot be serialised: %v", err), nil)
 		return
 	}
 	m2, err, panicked := c04SilentParse(b1, o.Par)
